@@ -425,12 +425,12 @@ pub fn def() -> PropDef {
                 name: "invalid",
                 rule: "see property rule",
                 strategy: strategy_bad,
-                cases: (20_000, 1_000_000),
+                cases: (200_000, 2_000_000),
                 exhaustive: Some(enumerate_bad),
                 exhaustive_note: "complete enumeration of the listed (family, n<=8, method, out-of-range argument / mismatched operand) combinations, 3 receivers each",
                 run: run_bad,
             }),
-            Box::new(Sub { name: "valid", rule: "see property rule", strategy: strategy_valid, cases: (6_000, 400_000), exhaustive: None, exhaustive_note: "", run: run_valid }),
+            Box::new(Sub { name: "valid", rule: "see property rule", strategy: strategy_valid, cases: (60_000, 800_000), exhaustive: None, exhaustive_note: "", run: run_valid }),
         ],
     }
 }
